@@ -20,6 +20,7 @@ import cmath
 import traceback
 from fractions import Fraction
 
+import os
 import numpy as np
 from sympy.polys.rings import PolyRing
 from sympy.polys.domains import QQ
@@ -54,6 +55,13 @@ class Cond:
     __slots__ = ("alg", "rel", "where")
 
     def __init__(self, alg, rel, where=None):
+        # conditions are stated on the fully cancelled fraction: an uncancelled common factor g of numerator and
+        # denominator would turn  N != 0  into the stronger (possibly unprovable)  g n != 0
+        if isinstance(alg, Alg) and alg.dfac not in ((), None) and not alg.den.is_ground:
+            try:
+                alg = alg.canon()
+            except Undecided:
+                pass
         self.alg = alg
         self.rel = rel
         self.where = where
@@ -100,6 +108,8 @@ class World:
         self.assumptions = []   # list[Cond]: the precondition
         self.rad_cache = {}
         self.fun_cache = {}
+        self.atoms = {}         # key -> monic polynomial used as an atomic factor of denominators
+        self.den_cache = {}
         self.angle_base = {}    # sym gen index -> (cos gen, sin gen)
         self.exp_base = {}
         self.concretised = []   # (site, Alg)
@@ -126,6 +136,56 @@ class World:
 
     def gen(self, i):
         return self.ring.gens[i]
+
+    # ---------------------------------------------------------------- factored denominators
+    def atom(self, p):
+        """register the (monic) polynomial p as an atomic denominator factor; returns its key"""
+        p = self.upgrade(p)
+        lc = p.LC
+        if lc != 1:
+            p = p.quo_ground(lc)
+        key = _poly_key(p)
+        if key not in self.atoms:
+            self.atoms[key] = p
+        return key
+
+    def split_atoms(self, p):
+        """p = c * prod atom^e with c in QQ: trial division by the atoms already known, the cofactor becomes a new atom"""
+        fac = {}
+        if p.is_ground:
+            return p.LC, fac
+        c = p.LC
+        p = p.quo_ground(c)
+        for key in list(self.atoms):
+            f = self.upgrade(self.atoms[key])
+            while not p.is_ground and _may_divide(p, f):
+                q = _exact_div(p, f)
+                if q is None:
+                    break
+                p = q
+                fac[key] = fac.get(key, 0) + 1
+            if p.is_ground:
+                break
+        if not p.is_ground:
+            k = self.atom(p)
+            fac[k] = fac.get(k, 0) + 1
+        return c, fac
+
+    def den_poly(self, left):
+        """reduce(prod atom^e) for a sorted tuple of (key, e); cached"""
+        if not left:
+            return self.ring.one
+        hit = self.den_cache.get(left)
+        if hit is not None:
+            return self.upgrade(hit)
+        out = self.ring.one
+        for key, e in left:
+            f = self.upgrade(self.atoms[key])
+            for _ in range(e):
+                out = out * f
+        out = self.reduce(out)
+        self.den_cache[left] = out
+        return out
 
     def sym(self, name, shadow):
         i = self._grow(name, 'sym', float(shadow))
@@ -270,37 +330,193 @@ class DomainViolation(Exception):
     """A domain obligation (division by zero, sqrt of a negative number, ...) fails at the concrete seed."""
 
 
+FACTORED = os.environ.get("VF_FACTORED_DEN", "1") != "0"
+GCD_LIMIT = int(os.environ.get("VF_GCD_LIMIT", "400"))
+
+
+_SUBST = [3, 7, 11, 13, 17, 19, 23, 29, 31, 37, 41, 43, 47, 53, 59, 61, 67, 71, 73, 79, 83, 89, 97, 101, 103, 107, 109, 113]
+
+
+_P = (1 << 61) - 1
+
+
+def _univ_image(p, k):
+    """image of p in GF(P)[x_k] under x_i -> fixed integers (i != k), dense list (low degree first); None if a
+    coefficient's denominator vanishes modulo P"""
+    out = {}
+    pw = {}
+    for m, c in p.items():
+        b = int(c.denominator) % _P
+        if b == 0:
+            return None
+        v = int(c.numerator) % _P
+        if b != 1:
+            v = v * pow(b, _P - 2, _P) % _P
+        for i, e in enumerate(m):
+            if e and i != k:
+                t = pw.get((i, e))
+                if t is None:
+                    t = pw[(i, e)] = pow(_SUBST[i % len(_SUBST)] + 131 * (i // len(_SUBST)), e, _P)
+                v = v * t % _P
+        d = m[k]
+        out[d] = (out.get(d, 0) + v) % _P
+    if not out:
+        return []
+    lst = [0] * (max(out) + 1)
+    for d, v in out.items():
+        lst[d] = v
+    while lst and lst[-1] == 0:
+        lst.pop()
+    return lst
+
+
+def _may_divide(num, f):
+    """cheap necessary condition for f | num (same ring): degree bounds, then divisibility of univariate images modulo a
+    prime under an integer substitution (if f | num then the image of f divides the image of num, unless it degenerates)"""
+    if not num:
+        return True
+    df = f.degrees()
+    dn = num.degrees()
+    k = -1
+    for i, (a, b) in enumerate(zip(df, dn)):
+        if a > b:
+            return False
+        if a and (k < 0 or a > df[k]):
+            k = i
+    if k < 0:
+        return True
+    fi = _univ_image(f, k)
+    if fi is None or len(fi) != df[k] + 1:
+        return True           # degenerate image: no information
+    ni = _univ_image(num, k)
+    if ni is None:
+        return True
+    inv = pow(fi[-1], _P - 2, _P)
+    while len(ni) >= len(fi):
+        c = ni[-1] * inv % _P
+        if c:
+            off = len(ni) - len(fi)
+            for j, a in enumerate(fi):
+                ni[off + j] = (ni[off + j] - c * a) % _P
+        ni.pop()
+    return not any(ni)
+
+
+def _exact_div(num, f):
+    """quotient q with num == q * f (same ring, lex order), or None when f does not divide num.
+    Sparse division with a heap of candidate leading monomials (sympy's PolyElement.div rescans all terms per step)."""
+    import heapq
+    ring = num.ring
+    if not num:
+        return ring.zero
+    fitems = list(f.items())
+    lm = max(m for m, _ in fitems)
+    lc = f[lm]
+    rest = [(m, c) for m, c in fitems if m != lm]
+    nv = len(lm)
+    p = dict(num.items())
+    heap = [tuple(-e for e in m) for m in p]
+    heapq.heapify(heap)
+    q = {}
+    while heap:
+        neg = heapq.heappop(heap)
+        m = tuple(-e for e in neg)
+        c = p.get(m)
+        if not c:
+            p.pop(m, None)
+            continue
+        qm = []
+        for a, b in zip(m, lm):
+            if a < b:
+                return None
+            qm.append(a - b)
+        qm = tuple(qm)
+        qc = c / lc
+        q[qm] = qc
+        del p[m]
+        for rm, rc in rest:
+            t = tuple(a + b for a, b in zip(qm, rm))
+            old_ = p.get(t)
+            if old_ is None:
+                p[t] = -qc * rc
+                heapq.heappush(heap, tuple(-e for e in t))
+            else:
+                v = old_ - qc * rc
+                if v:
+                    p[t] = v
+                else:
+                    del p[t]          # stale heap entry is skipped when popped
+    return ring.from_dict(q)
+
+
 def _is_number(x):
     return isinstance(x, (int, float, complex, Fraction, np.integer, np.floating, np.complexfloating, bool, np.bool_))
 
 
 class Alg:
-    __slots__ = ("w", "num", "den", "val", "_nz")
-    def __init__(self, w, num, den, val, normalise=False):
+    __slots__ = ("w", "num", "den", "val", "_nz", "dfac")
+
+    def __init__(self, w, num, den, val, normalise=False, dfac=None):
         self.w = w
         self.num = num
         self.den = den
         self.val = val
         self._nz = None
+        # factored denominator: tuple of (key, exponent) into w.atoms with  den == reduce(prod atom^exp)  ;
+        # None = not tracked (den is treated as one atom when needed); () = ground denominator
+        self.dfac = dfac
 
     # NumPy: Alg OP ndarray  must defer to ndarray.__rOP__ ; returning NotImplemented below does that.
     # (we do NOT set __array_priority__ / __array_ufunc__; deleting the class attribute keeps ndarray in charge)
 
     # ------------------------------------------------------------ helpers
     @staticmethod
-    def _mk(w, num, den, val):
-        """normalise: upgrade, reduce modulo relations, cancel the gcd, sign-normalise the denominator."""
+    def _mk(w, num, den, val, fac=None):
+        """normalise: upgrade, reduce modulo relations, cancel common factors, sign-normalise the denominator.
+        With `fac` (a dict atom-key -> exponent describing the denominator) the cancellation is by trial division by the
+        known atoms (cheap) instead of a multivariate gcd; the fraction may then stay unreduced, which is harmless:
+        equality is decided by `numerator reduces to zero`, never by comparing representations."""
         num = w.reduce(w.upgrade(num))
+        if fac is not None and FACTORED:
+            if not num:
+                return Alg(w, w.ring.zero, w.ring.one, val, dfac=())
+            left = []
+            for key, e in sorted(fac.items()):
+                f = w.upgrade(w.atoms[key])
+                while e > 0 and _may_divide(num, f):
+                    q = _exact_div(num, f)
+                    if q is None:
+                        break
+                    num = q
+                    e -= 1
+                if e:
+                    left.append((key, e))
+            left = tuple(left)
+            den = w.den_poly(left)
+            if left and len(num) + len(den) <= GCD_LIMIT:
+                # small operands: a full multivariate gcd is cheap and keeps the fraction canonical (trial division misses
+                # common factors that only appear after reduction modulo the radical relations)
+                try:
+                    n2, d2 = num.cancel(den)
+                except Exception as e:  # pragma: no cover
+                    raise Undecided(f"gcd failed: {e}")
+                if len(d2) < len(den) or d2.degrees() != den.degrees():
+                    if d2.is_ground:
+                        return Alg(w, n2.quo_ground(d2.LC), w.ring.one, val, dfac=())
+                    c, fac = w.split_atoms(d2)
+                    left = tuple(sorted(fac.items()))
+                    return Alg(w, n2.quo_ground(c), w.den_poly(left), val, dfac=left)
+            return Alg(w, num, den, val, dfac=left)
         den = w.reduce(w.upgrade(den))
         if not num:
-            return Alg(w, w.ring.zero, w.ring.one, val)
+            return Alg(w, w.ring.zero, w.ring.one, val, dfac=())
         if den.is_ground:
             c = den.LC if den else None
             if not den:
                 raise Undecided("symbolic denominator reduced to zero")
             if c != 1:
                 num = num.quo_ground(c) if hasattr(num, 'quo_ground') else num * (1 / c)
-            return Alg(w, num, w.ring.one, val)
+            return Alg(w, num, w.ring.one, val, dfac=())
         try:
             num, den = num.cancel(den)
         except Exception as e:  # pragma: no cover
@@ -310,7 +526,24 @@ class Alg:
         if lc != 1:
             num = num.quo_ground(lc)
             den = den.quo_ground(lc)
+        if den.is_ground:
+            return Alg(w, num, w.ring.one, val, dfac=())
         return Alg(w, num, den, val)
+
+    def _fac(self):
+        """the denominator as a dict atom-key -> exponent (registering it as a new atom when it was not tracked)"""
+        if self.dfac is None:
+            if self.den.is_ground:
+                self.dfac = ()
+            else:
+                self.dfac = ((self.w.atom(self.den), 1),)
+        return dict(self.dfac)
+
+    def canon(self):
+        """fully cancelled representative (multivariate gcd): used where a canonical form is needed as a cache key"""
+        if self.den.is_ground:
+            return self
+        return Alg._mk(self.w, self.num, self.den, self.val)
 
     def _coerce(self, other):
         if isinstance(other, Alg):
@@ -337,6 +570,17 @@ class Alg:
         if o is None:
             return NotImplemented
         w = self.w
+        if FACTORED:
+            fa, fb = self._fac(), o._fac()
+            if fa == fb:
+                return Alg._mk(w, w.upgrade(self.num) + w.upgrade(o.num), None, self.val + o.val, fac=fa)
+            lcm = dict(fa)
+            for k, e in fb.items():
+                if lcm.get(k, 0) < e:
+                    lcm[k] = e
+            ma = w.den_poly(tuple(sorted((k, e - fa.get(k, 0)) for k, e in lcm.items() if e - fa.get(k, 0))))
+            mb = w.den_poly(tuple(sorted((k, e - fb.get(k, 0)) for k, e in lcm.items() if e - fb.get(k, 0))))
+            return Alg._mk(w, w.upgrade(self.num) * ma + w.upgrade(o.num) * mb, None, self.val + o.val, fac=lcm)
         a_n, a_d, b_n, b_d = w.upgrade(self.num), w.upgrade(self.den), w.upgrade(o.num), w.upgrade(o.den)
         if a_d == b_d:
             return Alg._mk(w, a_n + b_n, a_d, self.val + o.val)
@@ -345,7 +589,7 @@ class Alg:
     __radd__ = __add__
 
     def __neg__(self):
-        return Alg(self.w, -self.num, self.den, -self.val)
+        return Alg(self.w, -self.num, self.den, -self.val, dfac=self.dfac)
 
     def __pos__(self):
         return self
@@ -371,6 +615,11 @@ class Alg:
         if o is None:
             return NotImplemented
         w = self.w
+        if FACTORED:
+            fac = self._fac()
+            for k, e in o._fac().items():
+                fac[k] = fac.get(k, 0) + e
+            return Alg._mk(w, w.upgrade(self.num) * w.upgrade(o.num), None, self.val * o.val, fac=fac)
         return Alg._mk(w, w.upgrade(self.num) * w.upgrade(o.num), w.upgrade(self.den) * w.upgrade(o.den),
                        self.val * o.val)
 
@@ -384,6 +633,10 @@ class Alg:
             w.require(self._modsq_if_complex(), '!=', f"{what}: divisor non-zero")
         elif abs(self.val) == 0:
             raise DomainViolation(f"{what} by zero at {_caller_site()}")
+        if FACTORED:
+            self._fac()
+            c, fac = w.split_atoms(w.upgrade(self.num))
+            return Alg._mk(w, w.upgrade(self.den) * (1 / c), None, 1 / self.val, fac=fac)
         return Alg._mk(w, self.den, self.num, 1 / self.val)
 
     def __truediv__(self, o):
@@ -621,7 +874,17 @@ class Alg:
         # sqrt(N/D) = sqrt(N*D)/|D| ; pull square factors out of N*D
         N, D = w.upgrade(self.num), w.upgrade(self.den)
         outside = w.const(1)
-        if not D.is_ground:
+        if not D.is_ground and FACTORED:
+            # sqrt(N / prod f^e) = sqrt(N * prod_{e odd} f) / prod |f|^ceil(e/2)
+            rad = N
+            for key, e in sorted(self._fac().items()):
+                f = w.upgrade(w.atoms[key])
+                fa = Alg(w, f, w.ring.one, _eval_poly(w, f), dfac=())
+                outside = outside / abs(fa) ** ((e + 1) // 2)
+                if e & 1:
+                    rad = rad * f
+            rad = w.reduce(rad)
+        elif not D.is_ground:
             Dalg = Alg(w, D, w.ring.one, _eval_poly(w, D))
             outside = outside / abs(Dalg)
             rad = w.reduce(N * D)
@@ -680,7 +943,14 @@ class Alg:
                 out = outside * w.const(Fraction(rn, rd))
                 out.val = math.sqrt(val) if val >= 0 else float('nan')
                 return out
-        # make the radicand primitive with positive content: sqrt(c * p) with c = content
+        # normalise the radicand to leading coefficient +-1 when the positive constant pulled out is a rational square:
+        # sqrt(c^2 * p) = c sqrt(p), so that proportional radicands share one generator
+        if not inner.is_ground:
+            a = abs(Fraction(int(inner.LC.numerator), int(inner.LC.denominator)))
+            rn, rd = math.isqrt(a.numerator), math.isqrt(a.denominator)
+            if a != 1 and rn * rn == a.numerator and rd * rd == a.denominator:
+                inner = inner.quo_ground(w.ring.domain(a.numerator) / w.ring.domain(a.denominator))
+                outside = outside * w.const(Fraction(rn, rd))
         key = _poly_key(inner)
         gi = w.rad_cache.get(key)
         if gi is None:
@@ -727,7 +997,8 @@ class Alg:
             r = (x * x + y * y).sqrt()
             return x / r, y / r
         if parts is None:
-            key = ('angle', _poly_key(self.num), _poly_key(self.den))
+            cs_ = self.canon()
+            key = ('angle', _poly_key(cs_.num), _poly_key(cs_.den))
             if key not in w.fun_cache:
                 c = math.cos(self.val)
                 s = math.sin(self.val)
@@ -799,7 +1070,8 @@ class Alg:
 
     def _fun(self, name, f, domain=None):
         w = self.w
-        key = (name, _poly_key(self.num), _poly_key(self.den))
+        cs_ = self.canon()
+        key = (name, _poly_key(cs_.num), _poly_key(cs_.den))
         if key not in w.fun_cache:
             if domain is not None:
                 domain(self)
@@ -839,7 +1111,8 @@ class Alg:
         w = self.w
         y = self
         x = y._coerce(x)
-        key = ('arctan2', _poly_key(y.num), _poly_key(y.den), _poly_key(x.num), _poly_key(x.den))
+        yc_, xc_ = y.canon(), x.canon()
+        key = ('arctan2', _poly_key(yc_.num), _poly_key(yc_.den), _poly_key(xc_.num), _poly_key(xc_.den))
         if key not in w.fun_cache:
             r2 = x * x + y * y
             if not r2.is_const():
